@@ -290,6 +290,26 @@ struct Cpy
 static_assert(!std::is_trivially_copy_constructible_v<Cpy> && std::is_trivially_move_constructible_v<Cpy> &&
               std::is_trivially_destructible_v<Cpy> && !std::is_trivially_copyable_v<Cpy>);
 
+// trivially copy/move constructible and trivially destructible, but with a user-provided copy assignment: not
+// trivially copyable although every constructor is trivial (std::pair<int, int> is the everyday example)
+struct Asg
+{
+    int32_t val;
+    Asg(int v) : val(v) {}
+    Asg(const Asg&) = default;
+    Asg(Asg&&) = default;
+    Asg& operator=(const Asg& o)
+    {
+        val = o.val;
+        return *this;
+    }
+    ~Asg() = default;
+    friend bool operator==(const Asg& a, const Asg& b) { return a.val == b.val; }
+    friend bool operator<(const Asg& a, const Asg& b) { return a.val < b.val; }
+};
+static_assert(std::is_trivially_copy_constructible_v<Asg> && std::is_trivially_move_constructible_v<Asg> &&
+              std::is_trivially_destructible_v<Asg> && !std::is_trivially_copyable_v<Asg>);
+
 template <class T, class = void>
 struct VT
 {
@@ -327,6 +347,13 @@ struct VT<Str>
         if (v.size() < 2 || v.size() > 6 || v[0] != 's') return -4;
         return std::atoi(v.c_str() + 1);
     }
+    static constexpr bool tracked = false;
+};
+template <>
+struct VT<Asg>
+{
+    static Asg make(int x) { return Asg(x); }
+    static int read(const Asg& v) { return v.val; }
     static constexpr bool tracked = false;
 };
 template <>
